@@ -7,10 +7,16 @@ package layout
 
 import (
 	"fmt"
+	"regexp"
+	"sort"
+	"strconv"
+	"strings"
+	"sync"
 
 	"astverif/bitdom"
 	"astverif/lin"
 	"astverif/pathint"
+	"astverif/report"
 )
 
 // SpecBuilder accumulates the syntax elements of one structure instance.
@@ -30,6 +36,7 @@ func (c *Checker) NewSpec(name string) *SpecBuilder {
 
 // Field: w bits carrying the integer field sym (most significant bit first).
 func (b *SpecBuilder) Field(w int, sym string) *SpecBuilder {
+	registerSpecWidth(sym, w)
 	b.c.IP.SetBounds(sym, 0, (int64(1)<<uint(w))-1)
 	f := lin.Sym(sym)
 	b.chunks = append(b.chunks, Chunk{Kind: CBits, W: w, Bits: b.c.IP.SymVec(sym, w), Lin: &f, What: "spec " + b.name + ": " + sym})
@@ -208,4 +215,60 @@ func (b *SpecBuilder) Source() *Source {
 	s := &Source{Name: "spec " + b.name, St: b.st, Chunks: b.chunks}
 	s.place()
 	return s
+}
+
+// specWidths: width in bits that the transcribed syntax tables give to each plain field symbol ("af.SpliceCountdown" -> 8),
+// collected while the reference sources are built. When one symbol is registered with several widths the smallest is kept.
+var (
+	specWidthMu sync.Mutex
+	specWidths  = map[string]int{}
+)
+
+func registerSpecWidth(sym string, w int) {
+	k := strings.ReplaceAll(sym, "$", "")
+	specWidthMu.Lock()
+	defer specWidthMu.Unlock()
+	if old, ok := specWidths[k]; !ok || w < old {
+		specWidths[k] = w
+	}
+}
+
+var fitsRe = regexp.MustCompile(`^(\S+) fits (?:the )?(\d+) bits`)
+
+// SpecWidthRule closes the gap that the "value fits the emitted width" assumptions of A3 leave open: the composition
+// parse∘write is judged on the bits the WRITER emits, so a writer that narrows a field (4-bit splice_type written through
+// a helper that keeps 2 bits) only weakens the assumption. Every such assumption about a symbol that one of the
+// transcribed syntax tables of this run also contains must grant at least the table's width.
+// One obligation W1/spec-width/<symbol> per symbol that has both.
+func SpecWidthRule(r *report.Report) {
+	specWidthMu.Lock()
+	defer specWidthMu.Unlock()
+	if len(specWidths) == 0 {
+		return
+	}
+	least := map[string]int{}
+	for _, a := range r.Assumptions {
+		// assumptions are prefixed by nothing or by "<pair>: "
+		txt := a
+		m := fitsRe.FindStringSubmatch(txt)
+		if m == nil {
+			continue
+		}
+		n, _ := strconv.Atoi(m[2])
+		if old, ok := least[m[1]]; !ok || n < old {
+			least[m[1]] = n
+		}
+	}
+	var syms []string
+	for s := range least {
+		if _, ok := specWidths[s]; ok {
+			syms = append(syms, s)
+		}
+	}
+	sort.Strings(syms)
+	for _, s := range syms {
+		w, n := specWidths[s], least[s]
+		r.Check(n >= w, "W1", "spec-width/"+s, "", fmt.Sprintf("%s is emitted in %d bits, the syntax table gives it %d", s, n, w),
+			fmt.Sprintf("the writer keeps only %d bits of %s where the syntax table has %d: values that the standard allows are truncated on the way out (parse∘write was judged on the narrower width)", n, s, w))
+	}
 }
